@@ -133,7 +133,7 @@ def random_op(rnd, m, cnt):
         nm = rnd.choice([tgt, tgt, fresh, rnd.choice(pool)]) or fresh
         return {"op": "change_comp", "name": tgt, "comp": spec_of(kind, nm, rnd), "group": rnd.choice(["", "g2"]), "rail": rnd.choice(["", "", "R%d" % cnt, rnd.choice(pool)]), "werror": rnd.random() < 0.1}
     if k == "del":
-        return {"op": "del_comp", "name": rnd.choice(pool), "del_childs": rnd.random() < 0.5}
+        return {"op": "del_comp", "name": rnd.choice(pool), "del_childs": rnd.choice([True, False, True, False, 0, 1])}      # the flag as a python bool, or as the int a table lookup would give
     if k == "phases":
         return {"op": "set_sys_phases", "phases": rnd.choice([{"a": 1.0, "b": 2.0}, {"a": 1.0, "b": 2.0, "c": 5.0}, {"a": 1.0}, {"N/A": 1, "b": 2}, {}])}
     tgt = rnd.choice(pool)
@@ -170,12 +170,15 @@ def run_history(ops, props, check_public=True, probe_every=0):
             after_i = snap_internal(s)
             if after_i != before_i:
                 d = [k for k in before_i if before_i[k] != after_i[k]]
-                fail("reject.internal", "rejected call #%d %s (%s) changed the system: %s" % (i, op_text(op), type(exc).__name__, d), ["C15", "C14"]); break
+                if not any(f["key"].startswith("reject.") for f in F):
+                    fail("reject.internal", "rejected call #%d %s (%s) changed the system: %s" % (i, op_text(op), type(exc).__name__, d), ["C15", "C14"])
+                continue        # the reference model did not apply the rejected call: it stays in step, the history goes on
             if check_public:
                 after_p = snap_public(s, solve=first_solve_done)
                 if after_p != before_p:
                     d = [k for k in before_p if before_p[k] != after_p[k]]
-                    fail("reject.public", "rejected call #%d %s (%s) changed reports: %s" % (i, op_text(op), type(exc).__name__, d), ["C15"]); break
+                    if not any(f["key"].startswith("reject.") for f in F):
+                        fail("reject.public", "rejected call #%d %s (%s) changed reports: %s" % (i, op_text(op), type(exc).__name__, d), ["C15"])
             continue
         errs = wf(s)
         if errs and not any(f["key"] == "wf" for f in F):
@@ -206,7 +209,21 @@ def compare_with_rebuilt(s, m, ops, seed, props):
         except Exception as e:
             if oc == "table" or nm not in ("rail_rep",): fail("report." + nm, "%s() after the history raised %s: %s" % (nm, type(e).__name__, str(e)[:80]))
     try:
-        fd, p = tempfile.mkstemp(suffix=".json"); os.close(fd); s.save(p); os.unlink(p)
+        fd, p = tempfile.mkstemp(suffix=".json"); os.close(fd); s.save(p)
+        # the saved document describes the final structure: it reloads, and the reloaded system solves to the same table
+        try:
+            from sysloss.system import System
+            s3 = System.from_file(p)
+            oc3, df3 = _solve_outcome(s3, energy=True)
+            if oc3 != oc: fail("report.save", "the save() document of the edited system reloads to a system that solves to %s (edited system: %s)" % (oc3, oc))
+            elif oc == "table":
+                from .families import frames_differ
+                d = frames_differ(df, df3, ["Component", "Phase"])
+                if d: fail("report.save", "the save() document of the edited system reloads to a different system: %s" % d)
+        except Exception as e:
+            fail("report.save", "the save() document of the edited system cannot be loaded: %s: %s" % (type(e).__name__, str(e)[:80]))
+        finally:
+            os.unlink(p)
     except Exception as e:
         fail("report.save", "save() after the history raised %s" % type(e).__name__)
     if F: return F
@@ -325,6 +342,20 @@ def _mux3(inputs, v0, v1):
 
 # 3-input muxes where one input (the tap F0) hangs below another input, addressed by name or by rail, in every priority order that
 # matters for re-linking (del_comp keeping children, renames): the tables before/after differ visibly because S0 and S1 differ
+# node slots freed by deletions are re-used (rustworkx): a source that sits at a HIGHER index than its own descendants, and a mux at index 0
+BASES += [
+    [{"op": "system", "comp": _src("S0", 5.0), "group": "", "rail": ""}, {"op": "add_comp", "parent": "S0", "comp": spec_of("Converter", "A0"), "group": "", "rail": ""},
+     {"op": "add_comp", "parent": "S0", "comp": spec_of("RLoss", "B0"), "group": "", "rail": ""}, {"op": "add_source", "comp": _src("S1", 9.0), "group": "", "rail": "R1"},
+     {"op": "del_comp", "name": "A0", "del_childs": True}, {"op": "del_comp", "name": "B0", "del_childs": True},
+     {"op": "add_source", "comp": _src("S2", 12.0), "group": "", "rail": ""}, {"op": "add_comp", "parent": "S2", "comp": spec_of("RLoss", "X0"), "group": "", "rail": "RX"},
+     {"op": "add_comp", "parent": "X0", "comp": spec_of("Converter", "Y0"), "group": "", "rail": ""},
+     {"op": "add_comp", "parent": ["Y0", "S1"], "comp": spec_of("PMux", "MX"), "group": "", "rail": ""}, {"op": "add_comp", "parent": "MX", "comp": spec_of("ILoad", "L0"), "group": "", "rail": ""}],
+    [{"op": "system", "comp": _src("S0", 5.0), "group": "", "rail": ""}, {"op": "add_source", "comp": _src("S1", 9.0), "group": "", "rail": "R1"},
+     {"op": "add_source", "comp": _src("S2", 12.0), "group": "", "rail": ""}, {"op": "add_comp", "parent": "S0", "comp": spec_of("ILoad", "L9"), "group": "", "rail": ""},
+     {"op": "del_comp", "name": "S0", "del_childs": True},
+     {"op": "add_comp", "parent": ["S1", "S2"], "comp": spec_of("PMux", "MX"), "group": "g", "rail": "RM"},
+     {"op": "add_comp", "parent": "MX", "comp": spec_of("Converter", "C5"), "group": "", "rail": ""}, {"op": "add_comp", "parent": "C5", "comp": spec_of("PLoad", "L5"), "group": "", "rail": ""}],
+]
 BASES += [_mux3(("F0", "R0", "S1"), 0.0, 9.0), _mux3(("F0", "S1", "S0"), 5.0, 9.0), _mux3(("S1", "RF", "R0"), 5.0, 0.0), _mux3(("R0", "S1", "F0"), 5.0, 9.0)]
 
 
@@ -348,6 +379,8 @@ def alphabet(m):
     A.append({"op": "add_source", "comp": spec_of("Source", "NSRC"), "group": "", "rail": "RS2"})
     A.append({"op": "add_source", "comp": spec_of("Source", first), "group": "", "rail": ""})
     A.append({"op": "add_source", "comp": spec_of("RLoss", "NOTSRC"), "group": "", "rail": ""})
+    A.append({"op": "add_source", "comp": spec_of("Source", inner[-1]), "group": "", "rail": ""})                    # collides with a (possibly phase-configured) component: rejected, its configuration stays
+    A.append({"op": "add_comp", "parent": first, "comp": spec_of("ILoad", inner[-1]), "group": "", "rail": ""})
     A.append({"op": "change_comp", "name": last, "comp": spec_of(m.nodes[last].kind, last), "group": "", "rail": ""})
     A.append({"op": "change_comp", "name": inner[-1], "comp": spec_of(m.nodes[inner[-1]].kind, "REN"), "group": "g3", "rail": "RR"})  # rename
     A.append({"op": "change_comp", "name": inner[-1], "comp": spec_of("PLoad", inner[-1]), "group": "", "rail": ""})                 # load replacing a parent
@@ -360,6 +393,13 @@ def alphabet(m):
     A.append({"op": "del_comp", "name": last, "del_childs": True})
     A.append({"op": "del_comp", "name": inner[-1], "del_childs": False})
     A.append({"op": "del_comp", "name": inner[-1], "del_childs": True})
+    A.append({"op": "del_comp", "name": inner[-1], "del_childs": 0})
+    A.append({"op": "del_comp", "name": [inner[-1], last], "del_childs": True})          # a list of names is not a name: whatever is raised, nothing is deleted
+    A.append({"op": "del_comp", "name": [last, first], "del_childs": True})
+    A.append({"op": "set_comp_phases", "name": [inner[-1]], "conf": ["a"]})
+    A.append({"op": "change_comp", "name": [last], "comp": spec_of("ILoad", "LL9"), "group": "", "rail": ""})
+    for n_ in [x for x in inner if m.nodes[x].type != "SOURCE"][:2]:
+        A.append({"op": "del_comp", "name": n_, "del_childs": 0})                # a falsy flag that is not the object False
     A.append({"op": "del_comp", "name": first, "del_childs": True})
     A.append({"op": "del_comp", "name": first, "del_childs": False})
     A.append({"op": "del_comp", "name": rails[0] if rails else "", "del_childs": True})
@@ -400,7 +440,7 @@ def exhaustive_case(args):
     F, s, m = run_history(ops, props, check_public=True, probe_every=(1 if sum(combo) % 2 else 0))
     if not [f for f in F if set(f["props"]) & set(props)] and len(m.nodes) and all(o is not None for o in [s]):
         # (a failure that belongs to another property does not end this property's examination of the history)
-        complete = not [f for f in F if f["key"] != "wf"]       # a WF failure does not desynchronise the reference model
+        complete = not [f for f in F if f["key"] != "wf" and not f["key"].startswith("reject.")]       # a WF failure does not desynchronise the reference model
         try:
             F = F + (compare_with_rebuilt(s, m, ops, bi * 1000 + sum(combo), props) if (complete or "C16" in props) else [])
         except Exception:
@@ -438,7 +478,7 @@ def random_case(args):
     out["hash"] = _hash(allops)
     F, s2, m2 = run_history(copy.deepcopy(allops), props, check_public=(idx % 4 == 0), probe_every=rnd.choice([0, 1, 2]))
     if not [f for f in F if set(f["props"]) & set(props)]:
-        complete = not [f for f in F if f["key"] != "wf"]
+        complete = not [f for f in F if f["key"] != "wf" and not f["key"].startswith("reject.")]
         try:
             F = F + (compare_with_rebuilt(s2, m2, allops, seed + idx, props) if (complete or "C16" in props) else [])
         except Exception:
